@@ -260,6 +260,27 @@ def run_dimensionless(acc):
                     ok = o[0] == "ok" and dict(o[1]._units) == dict(want[1]._units) and abs(float(o[1].magnitude) - float(want[1].magnitude)) <= 1e-12 * max(1.0, abs(float(want[1].magnitude)))
                     if not ok:
                         acc.violation([name.replace("ito_", "to_"), "preservation", "dimensionless-quantity-not-reduced-to-the-number-it-denotes", "log" if u in ("decibel", "decade", "octave", "neper", "dB") else "scaled"], {"unit": u, "magnitude": x, "helper": name}, show(want[1]), show(o[1]) if o[0] == "ok" else o[1])
+    # "dimensionless ... inputs are returned unchanged by to_compact": also when the quantity still carries unit NAMES that
+    # cancel completely (percent, inch/meter, millimeter/kilometer) — there is no unit whose prefix could be changed
+    ureg = regs.default("float", fresh=True)
+    for u in ("percent", "ppm", "inch / meter", "millimeter / kilometer", "meter / meter", "kilometer * hertz / (meter / second)", ""):
+        for x in (5000.0, 1234567.0, 0.002, -47000.0, 1e-9, 3.0):
+            for name in ("to_compact", "ito_compact"):
+                acc.ev()
+                acc.nt(("dimensionless-compact", u, x, name))
+                q = ureg.Quantity(x, u)
+                if not dict(q._units) and name == "ito_compact":
+                    continue
+                before = (q.magnitude, dict(q._units))
+                if name == "to_compact":
+                    o = call(lambda: q.to_compact())
+                else:
+                    if not hasattr(q, "ito_compact"):
+                        continue
+                    o = call(lambda: (q.ito_compact(), q)[1])
+                ok = o[0] == "ok" and dict(o[1]._units) == before[1] and o[1].magnitude == before[0]
+                if not ok:
+                    acc.violation(["to_compact", "preservation", "dimensionless-input-not-returned-unchanged", "units-that-cancel" if u else "no-units"], {"unit": u, "magnitude": x, "helper": name}, f"{x} {u}", show(o[1]) if o[0] == "ok" else o[1])
     acc.outcome("dimensionless")
     acc.sample({"clause": "dimensionless", "quantity": "20 decibel", "expected": "100 (dimensionless)"})
 
@@ -537,7 +558,7 @@ def replay(rec):
     tier = rec.get("tier", "quick")
     if site[-1] == "float-array":
         run_arrays(acc)
-    elif site[2] == "dimensionless-quantity-not-reduced-to-the-number-it-denotes":
+    elif site[2] in ("dimensionless-quantity-not-reduced-to-the-number-it-denotes", "dimensionless-input-not-returned-unchanged"):
         run_dimensionless(acc)
     elif site[0] == "to_compact":
         run_compact(acc, nt if nt in ("Fraction", "float", "Decimal", "ufloat") else "float", tier)
